@@ -291,7 +291,7 @@ PROPS["C09"] = dict(
                "both flag words) compared with a brute-force search over the walked object list using independent 64-bit mask arithmetic.",
     technique="bounded-exhaustive argument enumeration on the real code, brute-force reference search (explicit-state over restrict successors)",
     design_ref="DESIGN.md 5 (C09), 6.1",
-    stages=[simple("helpers", "c09_helpers", parts=50, deadline={"quick": 120, "thorough": 2400})],
+    stages=[simple("helpers", "c09_helpers", parts=50, deadline={"quick": 400, "thorough": 2400})],
     explanation="States: U_small under the default and the keep-all+INCLUDE_DISALLOWED configurations, plus the distinct states after one restrict of the (lean) restrict alphabet.",
     bounds={"quick": "successors by one restrict or one Group insertion of the lean alphabet", "thorough": "successors with subsets up to 4 elements"},
     assumptions=COMMON_ASSUMPTIONS + ["hwloc_distrib: pairwise disjointness is demanded for until=INT_MAX and n <= #PUs only (with a cut-off the documented result repeats cpusets)",
